@@ -100,6 +100,21 @@ def check_str(b, ctx):
                     b.hex(), sv, 'on' if fl else 'off', 'accepted' if g['ok'] else 'rejected (%s)' % g['err'], '' if fl else 'not ', '' if R.num_minimal(b) else 'not '), observed=[g['ok'], g['err']])
             if g['ok'] and g['final']['st'] != [enc_hex(want + 1)]:
                 raise Violation(dict(kind='bytes', hex=b.hex()), 'operand %s of OP_1ADD decodes to a value whose successor is %r, Bitcoin assigns %d' % (b.hex(), g['final']['st'], want), observed=g['final']['st'], expected=enc_hex(want + 1))
+    # ... and in every operand position of multi-operand arithmetic (the verdict on one operand must not depend on the VALUES of the others:
+    # OP_WITHIN with x below / above min, both operands of ADD / BOOLAND / MIN / NUMEQUAL / LESSTHAN)
+    one, five, three, seven, ten = R.num_enc(1), R.num_enc(5), R.num_enc(3), R.num_enc(7), R.num_enc(10)
+    probes = [(b'\x93', [b, one]), (b'\x93', [one, b]), (b'\x9a', [b, one]), (b'\x9a', [b'', b]), (b'\xa3', [b, one]), (b'\xa3', [one, b]), (b'\x9c', [one, b]), (b'\x9f', [b, one]),
+              (b'\xa5', [b, b'', ten]), (b'\xa5', [five, b, ten]), (b'\xa5', [three, five, b]), (b'\xa5', [seven, five, b]), (b'\xa5', [five, five, b])]
+    for fl in (0, R.F['MINIMALDATA']):
+        must_fail = bool(fl) and not R.num_minimal(b)
+        for sc_, st_ in probes:
+            g = h.req(kvline('run', script=sc_, stack=st_, flags=fl, sv=0, mode='step', trace=0))
+            if 'final' not in g:
+                raise Violation(dict(kind='bytes', hex=b.hex()), 'probe could not be run: %r' % g, observed=g)
+            if must_fail != (not g['ok']):
+                raise Violation(dict(kind='bytes', hex=b.hex()), 'operand %s in position %d of opcode 0x%02x (other operands %s), MINIMALDATA %s: %s - minimal encoding is %srequired and the string is %sminimal' % (
+                    b.hex(), st_.index(b), sc_[0], [x.hex() for x in st_ if x is not b], 'on' if fl else 'off', 'accepted' if g['ok'] else 'rejected (%s)' % g['err'], '' if fl else 'not ', '' if R.num_minimal(b) else 'not '),
+                    observed=[g['ok'], g['err']])
     # harness-level codec probe incl. the minimal-encoding verdict
     s = h.req(kvline('scriptnum', bytes=b, max=4))
     if s.get('dec') != want or bool(s.get('min_ok')) != R.num_minimal(b):
